@@ -568,7 +568,8 @@ offset `d`:
 * the insertion `(I, |a|)` directly at `pos`, when REF is empty and the read carries the inserted allele `a`.
 The read's bases over `W1 ++ [(op, len)] ++ W2` are a copy of the haplotype `hapOf R pos |REF| a` (`hq`); the read
 covers the variant (`hcov`: the window is not cut inside the variant); on either side the M/=/X run reaches the end of
-the ±`oh` window, or only soft/hard clips follow (read start/end: truncated window).  Then `realign`'s window is
+the ±`oh` window, or the window ends there (`endsWindow`: only soft/hard clips up to the read start/end, or — with
+the repaired `cigar_prefix_length`, `f14` — up to a reference skip): truncated window.  Then `realign`'s window is
 `⟨lp ++ a ++ rp, [lp ++ x ++ rp | x ∈ REF :: ALTs]⟩`. -/
 theorem window_is_padded_allele (f14 : Bool) (R query : Seq) (pos : Nat) (ref a : Seq) (alts : List Seq)
     (A W1 W2 B : Cigar) (op len d start oh : Nat) (hoh : 0 < oh)
@@ -580,8 +581,8 @@ theorem window_is_padded_allele (f14 : Bool) (R query : Seq) (pos : Nat) (ref a 
     (hR : slice R pos ref.length = ref)
     (hcov : pos + ref.length ≤ start + refLen A + refLen (W1 ++ (op, len) :: W2))
     (hin : start + refLen A + refLen (W1 ++ (op, len) :: W2) ≤ R.length)
-    (hleft : oh ≤ refLen W1 + d ∨ A.all isClip = true)
-    (hright : pos + ref.length + oh ≤ start + refLen A + refLen (W1 ++ (op, len) :: W2) ∨ B.all isClip = true)
+    (hleft : oh ≤ refLen W1 + d ∨ endsWindow f14 A.reverse = true)
+    (hright : pos + ref.length + oh ≤ start + refLen A + refLen (W1 ++ (op, len) :: W2) ∨ endsWindow f14 B = true)
     (hq : slice query (qLen A) (qLen (W1 ++ (op, len) :: W2)) =
       slice (hapOf R pos ref.length a) (start + refLen A) (qLen (W1 ++ (op, len) :: W2))) :
     ∃ lp rp, window f14 ⟨pos, ref, alts⟩ query (A ++ W1 ++ (op, len) :: (W2 ++ B)) (A ++ W1).length d
@@ -598,8 +599,8 @@ theorem window_is_padded_allele_deletion (f14 : Bool) (R query : Seq) (pos : Nat
     (hpos : pos = start + refLen A + refLen W1)
     (hR : slice R pos ref.length = ref)
     (hin : pos + ref.length + refLen W2 ≤ R.length)
-    (hleft : oh ≤ refLen W1 ∨ A.all isClip = true)
-    (hright : oh ≤ refLen W2 ∨ B.all isClip = true)
+    (hleft : oh ≤ refLen W1 ∨ endsWindow f14 A.reverse = true)
+    (hright : oh ≤ refLen W2 ∨ endsWindow f14 B = true)
     (hq : slice query (qLen A) (qLen W1 + qLen W2) =
       slice (hapOf R pos ref.length []) (start + refLen A) (qLen W1 + qLen W2)) :
     ∃ lp rp, window f14 ⟨pos, ref, alts⟩ query (A ++ W1 ++ (2, ref.length) :: (W2 ++ B)) (A ++ W1).length 0
@@ -623,8 +624,8 @@ theorem window_is_padded_allele_insertion (f14 : Bool) (R query : Seq) (pos : Na
     (hW1 : W1.all isMatchOp = true) (hW2 : W2.all isMatchOp = true)
     (hpos : pos = start + refLen A + refLen W1)
     (hin : pos + refLen W2 ≤ R.length)
-    (hleft : oh ≤ refLen W1 ∨ A.all isClip = true)
-    (hright : oh ≤ refLen W2 ∨ B.all isClip = true)
+    (hleft : oh ≤ refLen W1 ∨ endsWindow f14 A.reverse = true)
+    (hright : oh ≤ refLen W2 ∨ endsWindow f14 B = true)
     (hq : slice query (qLen A) (qLen W1 + (a.length + qLen W2)) =
       slice (hapOf R pos 0 a) (start + refLen A) (qLen W1 + (a.length + qLen W2))) :
     ∃ lp rp, window f14 ⟨pos, [], alts⟩ query (A ++ W1 ++ (1, a.length) :: (W2 ++ B)) (A ++ W1).length 0
@@ -655,8 +656,8 @@ theorem realign_canonical_correct (f14 : Bool) (R query : Seq) (pos : Nat) (ref 
     (hR : slice R pos ref.length = ref)
     (hcov : pos + ref.length ≤ start + refLen A + refLen (W1 ++ (op, len) :: W2))
     (hin : start + refLen A + refLen (W1 ++ (op, len) :: W2) ≤ R.length)
-    (hleft : oh ≤ refLen W1 + d ∨ A.all isClip = true)
-    (hright : pos + ref.length + oh ≤ start + refLen A + refLen (W1 ++ (op, len) :: W2) ∨ B.all isClip = true)
+    (hleft : oh ≤ refLen W1 + d ∨ endsWindow f14 A.reverse = true)
+    (hright : pos + ref.length + oh ≤ start + refLen A + refLen (W1 ++ (op, len) :: W2) ∨ endsWindow f14 B = true)
     (hq : slice query (qLen A) (qLen (W1 ++ (op, len) :: W2)) =
       slice (hapOf R pos ref.length a) (start + refLen A) (qLen (W1 ++ (op, len) :: W2))) :
     realign f14 lev ⟨pos, ref, alts⟩ none query (A ++ W1 ++ (op, len) :: (W2 ++ B)) (A ++ W1).length d
@@ -690,8 +691,8 @@ theorem realign_indel_correct (f14 : Bool) (R query : Seq) (pos : Nat) (ref alt 
     (hR : slice R pos ref.length = ref)
     (hcov : pos + ref.length ≤ start + refLen A + refLen (W1 ++ (op, len) :: W2))
     (hin : start + refLen A + refLen (W1 ++ (op, len) :: W2) ≤ R.length)
-    (hleft : oh ≤ refLen W1 + d ∨ A.all isClip = true)
-    (hright : pos + ref.length + oh ≤ start + refLen A + refLen (W1 ++ (op, len) :: W2) ∨ B.all isClip = true)
+    (hleft : oh ≤ refLen W1 + d ∨ endsWindow f14 A.reverse = true)
+    (hright : pos + ref.length + oh ≤ start + refLen A + refLen (W1 ++ (op, len) :: W2) ∨ endsWindow f14 B = true)
     (hq : slice query (qLen A) (qLen (W1 ++ (op, len) :: W2)) =
       slice (hapOf R pos ref.length (if h = 0 then ref else alt)) (start + refLen A) (qLen (W1 ++ (op, len) :: W2))) :
     realign f14 lev ⟨pos, ref, [alt]⟩ none query (A ++ W1 ++ (op, len) :: (W2 ++ B)) (A ++ W1).length d
@@ -773,6 +774,18 @@ example : realign true lev ⟨3, [], [['T', 'T']]⟩ none ['G', 'G', 'A', 'T', '
     [] [(0, 3)] [(0, 2)] [(5, 1)] 1 2 0 0 2 (by decide) (by decide) (by decide)
     (Or.inr (Or.inr ⟨rfl, rfl, rfl, rfl, rfl⟩)) (by decide) (by decide) (by decide) (by decide)
     (Or.inl (by decide)) (Or.inl (by decide)) (by decide)
+
+/-- the deletion read `3M 2D 1M 5N 4M`: the window is cut at the reference skip (repaired `cigar_prefix_length`) -/
+example : realign true lev ⟨3, ['C', 'T'], [[]]⟩ none ['G', 'G', 'A', 'G', 'A', 'A', 'A', 'A']
+    ([] ++ [(0, 3)] ++ (2, 2) :: ([(0, 1)] ++ [(3, 5), (0, 4)])) (([] : Cigar) ++ [(0, 3)]).length 0
+    ((qLen (([] : Cigar) ++ [(0, 3)]) + 0 : Nat) : Int) Rg 2 = .ok (some 1) :=
+  realign_indel_correct true Rg _ 3 ['C', 'T'] [] 1 (Or.inl ⟨rfl, by decide⟩) (by decide)
+    [] [(0, 3)] [(0, 1)] [(3, 5), (0, 4)] 2 2 0 0 2 (by decide) (by decide) (by decide)
+    (Or.inr (Or.inl ⟨rfl, rfl, rfl, rfl, rfl⟩)) (by decide) (by decide) (by decide) (by decide)
+    (Or.inl (by decide)) (Or.inr (by decide)) (by decide)
+
+/-- only clips up to the read end is a special case of `endsWindow` (the hypothesis of the SNV/MNP theorem) -/
+example (f14 : Bool) (X : Cigar) (h : X.all isClip = true) : endsWindow f14 X = true := endsWindow_of_clips f14 X h
 
 /-- the windows of the deletion read (`= X =` blocks on the left, read end after 1 base on the right) and of the
 insertion read -/
